@@ -449,13 +449,14 @@ func keeperRuns(lg *sim.Log, seed int64, runs, steps int) (int, error) {
 				res = e.Deliver(calc())
 			}
 			single, _ := evalFn(e, fn, fP, fR, epT, sdk.OneDec())
+			single0, _ := evalFn(e, fn, fP, fR, dt, sdk.OneDec()) // one accrual over the time since the previous trigger
 			p = f.project(e, kind, app, id)
 			par = lg.Add(par, run, "Accrue",
 				map[string]interface{}{"kind": kind, "via": via, "rate": rate, "principal": principal, "dt": dt, "burst": burst,
 					"fn": fn, "P": epP, "PL": sim.Limbs(fP.BigInt()), "r": epR, "T": epT, "k": epK,
 					"idxL": sim.Limbs(fIdx.BigInt()), "ivL": sim.Limbs(iv), "stale": stale},
 				map[string]interface{}{"ok": res.OK, "err": res.Err, "panic": res.Panic},
-				map[string]interface{}{"debtL": p.DebtL, "frac": p.Frac, "found": p.Found, "single": single})
+				map[string]interface{}{"debtL": p.DebtL, "frac": p.Frac, "found": p.Found, "single": single, "single0": single0})
 		}
 	}
 	return 0, nil
